@@ -430,6 +430,13 @@ theorem cut_inside_update :
     recovered (recover c (j.take 3)) (fun zr => decide (zr ≠ z0 ∧ rrsetOf zr (nm 97, T_A) = [])) = true := by
   decide
 
+/-- non-vacuity: the rows of the example history fit, and a row of 65 535 octets of RDATA does not -/
+example : MsgFits twoAdds := by decide
+
+example (b : Bytes) (h : b.length = 65535) :
+    rowFits { name := nm 98, rtype := 16, cls := 1, ttl := 300, rdata := .bytes b } = false := by
+  simp [rowFits, rdataLen, h]
+
 /-- non-vacuity: the example history satisfies the hypotheses of the theorems above -/
 example : KInv exCfg (exZone 100) ∧ DumpReplays exCfg (exZone 100) :=
   ⟨kinv_of_check _ _ (by decide), by decide⟩
